@@ -228,7 +228,7 @@ async def population(out, rng, seed, P, oport, closed, uport, n, truth, io_name,
                 truth[rec["src"]] = rec
                 loop = asyncio.get_running_loop()
                 u = socket.socket(socket.AF_INET, socket.SOCK_DGRAM)
-                u.bind(("127.0.0.1", 0))
+                u.bind(("127.0.0.1", free_port()))
                 u.setblocking(False)
                 for k in range(3):
                     await loop.sock_sendto(u, b"\0\0\0" + addr_v5("127.0.0.1", uport) + b"d%d" % k, ("127.0.0.1", bp))
